@@ -244,7 +244,7 @@ pub fn cop(b: &E3Bias) -> BoxedStrategy<COp> {
     add(b.reads, prop_oneof![
         3 => (0..keys).prop_map(|k| COp::Get { k }),
         1 => (0..keys).prop_map(|k| COp::GetSize { k }),
-        1 => (0..keys, 0u8..6, 0u8..8).prop_map(|(k, s, e)| COp::GetRange { k, s, e }),
+        2 => (0..keys, prop_oneof![3 => Just(0u8), 1 => 0u8..6], prop_oneof![3 => Just(200u8), 1 => 0u8..8]).prop_map(|(k, s, e)| COp::GetRange { k, s, e }),
         2 => (0..keys).prop_map(|k| COp::GetReader { k }),
     ].boxed());
     add(b.checkpoint, Just(COp::Checkpoint).boxed());
